@@ -18,6 +18,7 @@ Line protocol for C11 (molar / mass / volumetric views and units of measure).
   wrF <s> <dim> <x> <V>                      → ok
   get <s> <dim> <ph|-> <i> <V>               → x <-|v<id>> <float>
   put <s> <dim> <ph|-> <i> <x> <V>           → w <-|v<id>>
+  putrow <s> <dim> <ph|-> <row> <V>          → w <-|v<id>>     (whole-row assignment through a view)
   getflow <s> <unit> <ph|-> <i> <V>          → x <-|v<id>> <float>
   setflow <s> <unit> <ph|-> <i> <x> <V>      → w <-|v<id>>
   gettotal <s> <unit> <V>                    → x - <float>
@@ -90,6 +91,8 @@ def parseOp? (t : List String) : Option Op :=
     pure (.get (← s.toNat?) (← parseDim? d) (← parsePh? ph) (← i.toNat?) (← parseMat? v))
   | ["put", s, d, ph, i, x, v] => do
     pure (.put (← s.toNat?) (← parseDim? d) (← parsePh? ph) (← i.toNat?) (← parseRat? x) (← parseMat? v))
+  | ["putrow", s, d, ph, xs, v] => do
+    pure (.putRow (← s.toNat?) (← parseDim? d) (← parsePh? ph) (← parseRow? xs) (← parseMat? v))
   | ["getflow", s, u, ph, i, v] => do
     pure (.getFlow (← s.toNat?) u (← parsePh? ph) (← i.toNat?) (← parseMat? v))
   | ["setflow", s, u, ph, i, x, v] => do
